@@ -19,7 +19,8 @@ enum K {
     TaskStatus(u64, u64),
     TaskDelta(u64, u64, String),
     CheckpointFailed,
-    ProviderEvent(bool, bool, bool),
+    /// (invalid_json, which error list, which response-error list) — see `err_list`
+    ProviderEvent(bool, u64, u64),
     Other(u64),
 }
 #[derive(Clone, Debug)]
@@ -96,8 +97,8 @@ fn to_event(e: &Ev) -> Event {
             event_name: None,
             data: None,
             raw: None,
-            errors: if *b { vec!["x".into()] } else { vec![] },
-            response_errors: if *c { vec!["y".into()] } else { vec![] },
+            errors: err_list(*b, "x"),
+            response_errors: err_list(*c, "y"),
         },
         K::Other(v) => other_kind(*v),
     };
@@ -150,7 +151,7 @@ fn coq_k(k: &K) -> String {
         K::TaskStatus(i, s) => format!("KTaskStatus {i} {s}"),
         K::TaskDelta(i, st, c) => format!("KTaskDelta {i} {st} {}", coq_str(c)),
         K::CheckpointFailed => "KCheckpointFailed".into(),
-        K::ProviderEvent(a, b, c) => format!("KProviderEvent {} {} {}", coq_bool(*a), coq_bool(*b), coq_bool(*c)),
+        K::ProviderEvent(a, b, c) => format!("KProviderEvent {} {} {}", coq_bool(*a), coq_bool(*b > 0), coq_bool(*c > 0)),
         K::Other(_) => "KOther".into(),
     }
 }
@@ -305,6 +306,18 @@ fn render_all(c: &Case) -> String {
     format!("{acc}{}", digest.count())
 }
 
+/// The error lists a provider frame carries: several DISTINCT messages per frame and across frames (a renderer that
+/// collects them in an unordered container shows them in a different order from run to run).
+fn err_list(which: u64, tag: &str) -> Vec<String> {
+    match which {
+        0 => vec![],
+        1 => vec![tag.to_string()],
+        2 => vec![format!("{tag}: missing field `type`"), format!("{tag}: invalid value"), tag.to_string()],
+        3 => vec![format!("{tag}-3a"), format!("{tag}-3b"), format!("{tag}-3c"), format!("{tag}-3d"), format!("{tag} é")],
+        _ => (0..8).map(|i| format!("{tag}{i}")).collect(),
+    }
+}
+
 // ---------------------------------------------------------------- headless renderers (rip-cli)
 fn rip_bin() -> std::path::PathBuf {
     let exe = std::env::current_exe().unwrap();
@@ -319,8 +332,8 @@ fn coq_hk(k: &K) -> String {
         K::ProviderEvent(a, b, c) => format!(
             "HProvider {} {} {} {}",
             coq_bool(*a),
-            if *b { format!("[{}]", coq_str("x")) } else { "[]".into() },
-            if *c { format!("[{}]", coq_str("y")) } else { "[]".into() },
+            format!("[{}]", err_list(*b, "x").iter().map(|e| coq_str(e)).collect::<Vec<_>>().join("; ")),
+            format!("[{}]", err_list(*c, "y").iter().map(|e| coq_str(e)).collect::<Vec<_>>().join("; ")),
             "None"
         ),
         K::SessionEnded => "HEnded".into(),
@@ -435,7 +448,7 @@ fn gen_case(r: &mut Rng, long: bool) -> Case {
             11 => K::TaskStatus(id, r.below(5)),
             12 => K::TaskDelta(id, r.below(3), gen_text(r, big)),
             13 => K::CheckpointFailed,
-            14 => K::ProviderEvent(r.chance(1, 4), r.chance(1, 4), r.chance(1, 4)),
+            14 => K::ProviderEvent(r.chance(1, 4), if r.chance(1, 3) { r.range(1, 4) } else { 0 }, if r.chance(1, 3) { r.range(1, 4) } else { 0 }),
             _ => K::Other(r.below(26 * 6)),
         };
         evs.push(Ev { seq: s, ts: 1000 + i * 3 + r.below(3), k, ident: i });
